@@ -104,9 +104,10 @@ def plan(tier, seed):
 
 def _sc():
     from sc3.base.main import main
-    from sc3.base.clock import TempoClock, Quant
+    from sc3.base.clock import TempoClock, Quant, SystemClock
     from sc3.base.stream import Routine
     return types.SimpleNamespace(main=main, TempoClock=TempoClock, Quant=Quant,
+                                 SystemClock=SystemClock,
                                  Routine=Routine)
 
 
@@ -164,7 +165,17 @@ def run_nrt(spec, acc, sc, K):
         sc.main.reset()
         K.take_fails()
         run = R.Run(prog, 'nrt', sc, counts)
-        run.start()
+        if prog.get('create_at'):
+            def starter():      # no parameters: a scheduled function
+                try:            # gets (function, clock)[:nargs]
+                    run.start()
+                except BaseException as e:      # harness error
+                    run.internal = short_tb(e, 10)
+            sc.SystemClock.sched(prog['create_at'], starter)
+            counts['clocks_created_at_later_second'] = counts.get(
+                'clocks_created_at_later_second', 0) + 1
+        else:
+            run.start()
         if not run.stop:
             try:
                 sc.main.process()
